@@ -1395,6 +1395,11 @@ package cache
 // Import: a cache is restored (importCache) only from a response with status 200 - the Export handler answers
 // 200 only after the name and the types hash matched (C14.export.gate / refuse) - and only into a cache
 // registered in this transfer; nothing else touches the caches.
+// Which cache is filled from which response: the response handed to importCache together with cache c is the
+// answer to a request whose URL names c (query parameter "name", first value - what the Export handler reads) and
+// carries this process's types hash. Stated at the call site: Import has one call of importCache, and every
+// response it passes on there is the result of the RoundTrip of the request built in the same iteration.
+//@ def lastRT() := calls("net/http.RoundTripper.RoundTrip")
 //@ func (*HTTPTransfer).Import
 //@   props C14
 //@   replay httpgate
@@ -1403,9 +1408,14 @@ package cache
 //@   ensures [C14.import.gate] forall k int :: 1 <= k && k <= calls(importCache) ==> arg(importCache, k, 3).StatusCode == 200
 //@   ensures [C14.import.own] forall k int :: 1 <= k && k <= calls(importCache) ==> arg(importCache, k, 0) == t
 //@   ensures [C14.import.direct] calls("WalkDumpRestorer.Restore") == 0
+//@   oncall importCache [C14.import.which] lastRT() >= 1 && resp == res("net/http.RoundTripper.RoundTrip", lastRT(), 0)
+//@       && arg("net/http.RoundTripper.RoundTrip", lastRT(), 1) == req && req != nil && req.URL != nil
+//@       && has(t.caches, urlGet(req.URL, "name")) && t.caches[urlGet(req.URL, "name")] == c
+//@       && urlGet(req.URL, "typesHash") == fmtuint(res(GobTypesHash, 1, 0), 10)
 //@   loop 1 invariant [C14.import.inv] forall k int :: 1 <= k && k <= calls(importCache) ==>
 //@       arg(importCache, k, 3).StatusCode == 200 && arg(importCache, k, 0) == t && allocated(arg(importCache, k, 3))
 //@   loop 1 invariant [C14.import.inv.direct] calls("WalkDumpRestorer.Restore") == 0 && u != nil
+//@   loop 1 invariant [C14.import.inv.hash] typesHash == fmtuint(res(GobTypesHash, 1, 0), 10) && allocated(u) && t.caches == old(t.caches)
 
 // ---------------------------------------------------------------------------------------------------
 // Constructors of the trait (C11): the janitor goroutine must run on the very Trait object the cache uses - it
